@@ -31,3 +31,123 @@ def C13_refuse_statement : Prop :=
   ∀ h : Bytes, (blankLines [] h > 0 ∨ (h ≠ [] ∧ h.getLast? ≠ some 10)) → headersValid h = false
 
 end Via
+
+namespace Via
+open HM
+
+/-! ### C18 — the concurrent map behaves as an ordinary map (sequential refinement) -/
+
+/-- the ordinary map: an association list without duplicate keys, newest first -/
+abbrev SpecMap (V : Type) := List (Nat × V)
+
+def SpecMap.step {V} (l : SpecMap V) : Op V → SpecMap V × Res V
+  | .insert k v => ((k, v) :: l.filter (fun p => p.1 != k), .unit)
+  | .erase k => (l.filter (fun p => p.1 != k), .unit)
+  | .find k => (l, .found (l.find? (fun p => p.1 == k)))
+  | .isEmpty => (l, .bool l.isEmpty)
+  | .data => (l, .list l)
+  | .clear => ([], .unit)
+
+def SpecMap.run {V} (l : SpecMap V) : List (Op V) → SpecMap V × List (Res V)
+  | [] => (l, [])
+  | op :: ops =>
+    let (l', r) := l.step op
+    let (l'', rs) := SpecMap.run l' ops
+    (l'', r :: rs)
+
+/-- results agree; the order in which `data()` lists the entries is not specified -/
+def ResRel {V} : Res V → Res V → Prop
+  | .list a, .list b => a.Perm b
+  | a, b => a = b
+
+def ResListRel {V} : List (Res V) → List (Res V) → Prop
+  | [], [] => True
+  | a :: as, b :: bs => ResRel a b ∧ ResListRel as bs
+  | _, _ => False
+
+/-- every operation sequence on the hash map (any bucket count, any hash function) returns what the
+    ordinary map returns; in particular `erase` of an absent key changes nothing and `find` returns the
+    latest value stored. -/
+def C18_seq_statement : Prop :=
+  ∀ (V : Type) (n : Nat) (hash : Nat → Nat) (ops : List (Op V)), 0 < n →
+    ResListRel ((Map.empty n hash).run ops).2 ((SpecMap.run ([] : SpecMap V) ops).2)
+
+end Via
+
+namespace Via
+open Auth
+
+/-! ### C17 — protected routes need valid credentials; base64 round trip -/
+
+/-- a request is accepted only if its Authorization value carries, after the scheme name, the base64 of
+    `user:password` for a registered pair -/
+def C17_guard_statement : Prop :=
+  ∀ (table : Table) (hdr : Option Bytes), basicIsValid table hdr = true →
+    ∃ a p u pw, hdr = some a ∧ findSub (b!"Basic") a 0 = some p ∧ p + 6 ≤ a.length ∧
+      decode (a.drop (p + 6)) = u ++ [58] ++ pw ∧ 58 ∉ u ∧ tableFind u table = some pw
+
+/-- every other request gets the challenge (naming the realm when configured), and never an empty one -/
+def C17_challenge_statement : Prop :=
+  ∀ (table : Table) (realm : Bytes) (hdr : Option Bytes), basicIsValid table hdr = false →
+    authenticate table realm hdr = authenticateValue realm ∧ authenticateValue realm ≠ [] ∧
+    (realm ≠ [] → authenticateValue realm = (b!"Basic realm=\"") ++ realm ++ (b!"\""))
+
+/-- registered credentials, encoded by the library's own encoder, are accepted -/
+def C17_accepts_statement : Prop :=
+  ∀ (table : Table) (u pw : Bytes), 58 ∉ u → tableFind u table = some pw →
+    basicIsValid table (some ((b!"Basic ") ++ encode (u ++ [58] ++ pw))) = true
+
+/-- base64 decode ∘ encode = id on all byte strings -/
+def b64_roundtrip_statement : Prop := ∀ x : Bytes, decode (encode x) = x
+
+end Via
+
+namespace Via
+open Router
+
+/-! ### C16 — the built-in router dispatches by method and path pattern as documented -/
+
+/-- segment-wise matching of a pattern against a path: equal number of segments, a `:name` segment
+    matches any one segment and binds it, any other segment must be equal -/
+def specSegs : List Bytes → List Bytes → Params → Option Params
+  | [], [], acc => some acc
+  | r :: rs, p :: ps, acc =>
+    if r.head? = some 58 then specSegs rs ps (mapInsert (r.drop 1) p acc)
+    else if r = p then specSegs rs ps acc else none
+  | _, _, _ => none
+
+def specRoute (r : Route) (path : Bytes) : Option Params :=
+  specSegs (split r.path 47) (split path 47) []
+
+/-- first registered route whose pattern matches -/
+def specFind (path : Bytes) : List Route → Option (Route × Params)
+  | [] => none
+  | r :: rest => match specRoute r path with
+    | some ps => some (r, ps)
+    | none => specFind path rest
+
+/-- documented outcome: 404 / 405 + Allow / 401 / exactly one handler with exactly the bindings -/
+def specHandle (routes : List Route) (authOk : Nat → Bool) (method path : Bytes) : Outcome :=
+  match specFind path routes with
+  | none => .notFound
+  | some (r, ps) =>
+    match mapFind method r.methods with
+    | none => .methodNotAllowed (joinWith [44, 32] (r.methods.map (·.1)))
+    | some e =>
+      match e.auth with
+      | some a => if authOk a then .handler e.handler ps else .unauthorised a
+      | none => .handler e.handler ps
+
+/-- the request path: the target up to the first '?' or '#' -/
+def stripQueryFragment (t : Bytes) : Bytes := t.takeWhile (fun c => c != 63 && c != 35)
+
+/-- documented pattern shape: every ':' directly follows a '/' (so it starts a segment) -/
+def WfPattern (p : Bytes) : Prop := ∀ i : Nat, p[i]? = some (58 : Byte) → 0 < i ∧ p[i - 1]? = some (47 : Byte)
+
+def C16_statement : Prop :=
+  ∀ (routes : List Route) (authOk : Nat → Bool) (method target : Bytes),
+    (∀ r ∈ routes, WfPattern r.path) → 0 ∉ target →
+    handleRequest routes authOk method target =
+      specHandle routes authOk method (stripQueryFragment target)
+
+end Via
